@@ -79,13 +79,29 @@ FORBIDDEN = re.compile(r"\b(Admitted|admit|Axiom|Parameter|Parameters|Conjecture
                        r"Unset Guard Checking|Unset Positivity Checking|Unset Universe Checking|"
                        r"bypass_check|type-in-type|impredicative-set)\b")
 
-def coq_sources():
-    out = []
+def coq_sources(prop=None):
+    """the .v files of the development; with prop: only those Properties/<prop>.v and Run/Run<prop>*.v depend on"""
+    allf = {}
     for d in ("Base", "Model", "Proofs", "Properties", "Run"):
         p = os.path.join(COQ, d)
         if os.path.isdir(p):
-            out += [os.path.join(p, f) for f in sorted(os.listdir(p)) if f.endswith(".v")]
-    return out
+            for f in sorted(os.listdir(p)):
+                if f.endswith(".v"):
+                    allf[f[:-2]] = os.path.join(p, f)
+    if prop is None:
+        return sorted(allf.values())
+    roots = [m for m in allf if m == prop or m.startswith("Run" + prop)]
+    seen, todo = set(), list(roots)
+    while todo:
+        m = todo.pop()
+        if m in seen or m not in allf:
+            continue
+        seen.add(m)
+        src = strip_comments(open(allf[m]).read())
+        for line in re.findall(r"(?:Require\s+(?:Import|Export)?|From\s+V\s+Require\s+(?:Import|Export)?)\s+([^.]*(?:\.[A-Za-z_][^.]*)*)\.", src):
+            for name in line.split():
+                todo.append(name.split(".")[-1])
+    return sorted(allf[m] for m in seen)
 
 def strip_comments(src):
     out, depth, i = [], 0, 0
@@ -108,7 +124,7 @@ def coq_targets(prop):
 
 def build_coq(prop):
     """full .vo build (never -vos) of the property's theorem file and wire wrappers; no-op when up to date"""
-    for f in coq_sources():
+    for f in coq_sources(prop):
         m = FORBIDDEN.search(strip_comments(open(f).read()))
         if m:
             raise Broken("forbidden construct %r in %s" % (m.group(0), os.path.relpath(f, ROOT)))
